@@ -1,3 +1,5 @@
+import J5V.Codec.AnyPbProofs
+import J5V.Codec.CanonProofs
 import J5V.Codec.ScalarProofs
 import J5V.Codec.RoundtripProofs
 import J5V.Codec.EncTreeProofs
@@ -87,7 +89,7 @@ Missing for the full statement: `google.protobuf.Any` and `Any` with proto conte
 up to re-marshalling, needs a resolver / marshal abstraction), mode `WithProtoToAny` for `Any`; an
 exposed oneof inlined from a flattened object. -/
 theorem C01_roundtrip_tree_partial (c : Cfg) (hs : c.env.flat = true) (L : OracleLaws c.O)
-    (hA : c.protoToAny = false ∨ c.env.noAny = true)
+    (hA : c.protoToAny = false ∨ c.env.noJ5Any = true)
     (root : String) (m : Fields) (t : PTree)
     (hok : valOk c.env c.O (.object root) (.msg m) = true ∨
       valOk c.env c.O (.oneof root) (.msg m) = true)
@@ -102,7 +104,7 @@ environments that have `Any` fields — `ChunkLaws`:
 what `O.chunk` recognises is compact JSON as the codec writes it (`PTree.Enc`); the `j5_json` of an
 `Any` is spliced into the output verbatim and read back as part of the document. -/
 theorem C01_roundtrip_bytes_partial (c : Cfg) (hs : c.env.flat = true) (L : OracleLaws c.O)
-    (hC : c.env.noAny = true ∨ ChunkLaws c.O) (hA : c.protoToAny = false ∨ c.env.noAny = true)
+    (hC : c.env.noAny = true ∨ ChunkLaws c.O) (hA : c.protoToAny = false ∨ c.env.noJ5Any = true)
     (root : String) (m : Fields) (bs : Bytes)
     (hok : valOk c.env c.O (.object root) (.msg m) = true ∨
       valOk c.env c.O (.oneof root) (.msg m) = true)
@@ -118,17 +120,56 @@ properties, string contents and integer values.
 Missing for `C01_roundtrip_full`: `google.protobuf.Any`, `Any` values with proto content and
 `Any` under `WithProtoToAny` (equal only up to re-marshalling), an exposed oneof inlined from a
 flattened object (all modelled and validated against Go by the correspondence, not yet covered by
-this proof), "an empty flattened sub-object is treated as absent" (`valOk` excludes empty flattened
-sub-messages; the Go-side oracle compares modulo them), and decimals that are
+this proof), "an empty flattened sub-object is treated as absent" is stated separately
+(`C01_roundtrip_canon_partial`, `C01_roundtrip_same_partial`: `valOk` describes the canonical forms), and decimals that are
 not in `decimal.String()` normal form (they round-trip up to numeric equality:
 `C01_scalar_roundtrip`). -/
 theorem C01_roundtrip_partial (c : Cfg) (hs : c.env.flat = true) (L : OracleLaws c.O)
-    (hC : c.env.noAny = true ∨ ChunkLaws c.O) (hA : c.protoToAny = false ∨ c.env.noAny = true)
+    (hC : c.env.noAny = true ∨ ChunkLaws c.O) (hA : c.protoToAny = false ∨ c.env.noJ5Any = true)
     (root : String) (m : Fields)
     (hok : valOk c.env c.O (.object root) (.msg m) = true ∨
       valOk c.env c.O (.oneof root) (.msg m) = true) :
     ∃ bs, encodeBytes c.env c.O root (.msg m) = .ok bs ∧ decodeBytes c root bs = .ok m :=
   roundtrip_bytes c hs L hC hA root m hok
+
+/-- **"an empty flattened sub-object is treated as absent"** (the property's own clause), general
+form: let `m` be ANY message of a flat environment and `m'` a representable message that holds
+**the same leaves** (`Same`, `Codec/Same.lean`: at every leaf path of the properties — flattened
+ones with their full path, members of exposed oneofs — both are unset or hold values that are
+again `Same`, at every depth, lists element by element, maps entry by entry; nothing is said about
+flattened sub-messages that hold no leaf: they may be present and empty in `m` and absent in
+`m'`). Then `Codec.ProtoToJSON m` succeeds, writes exactly what it writes for `m'` (the encoder
+reads a message only through the leaves of its properties: `EQ_all`), and `Codec.JSONToProto` maps
+the bytes to `m'`. (`hd`: `m'` is not nested deeper than `m`.) -/
+theorem C01_roundtrip_same_partial (c : Cfg) (hs : c.env.flat = true) (L : OracleLaws c.O)
+    (hC : c.env.noAny = true ∨ ChunkLaws c.O) (hA : c.protoToAny = false ∨ c.env.noJ5Any = true)
+    (root : String) (m m' : Fields)
+    (hsame : Same c.env (.object root) (.msg m) (.msg m') ∨
+      Same c.env (.oneof root) (.msg m) (.msg m'))
+    (hok : valOk c.env c.O (.object root) (.msg m') = true ∨
+      valOk c.env c.O (.oneof root) (.msg m') = true)
+    (hd : depthFields m' ≤ depthFields m) :
+    ∃ bs, encodeBytes c.env c.O root (.msg m) = .ok bs ∧ decodeBytes c root bs = .ok m' :=
+  roundtrip_same c hs L hC hA root m m' hsame hok hd
+
+/-- **… with the canonical form written out** (`canonFlat`: the message restricted to the leaves of
+its properties — flattened sub-messages that hold no leaf are dropped, through nested flattened
+sub-messages; everything else is kept): for an object root of a flat environment and every
+message `m` whose stores have strictly increasing field numbers (`sortedDeepF`: what a protobuf
+message is) and whose canonical form is representable, **`decode (encode m) = canonFlat m`**.
+A message with an empty flattened sub-message is not `valOk` itself (`valOk` describes the
+canonical forms), so this is the statement for the messages `C01_roundtrip_partial` excludes.
+Leaf values that themselves contain empty flattened sub-messages are covered by
+`C01_roundtrip_same_partial`, not by this concrete form. -/
+theorem C01_roundtrip_canon_partial (c : Cfg) (hs : c.env.flat = true) (L : OracleLaws c.O)
+    (hC : c.env.noAny = true ∨ ChunkLaws c.O) (hA : c.protoToAny = false ∨ c.env.noJ5Any = true)
+    (root : String) (props : List PropDef) (hfind : c.env.find root = some (.object props))
+    (m : Fields) (hsort : asorted m = true) (hdeep : sortedDeepF m = true)
+    (hok : valOk c.env c.O (.object root) (.msg (canonFlat c.env props m)) = true) :
+    ∃ bs, encodeBytes c.env c.O root (.msg m) = .ok bs ∧
+      decodeBytes c root bs = .ok (canonFlat c.env props m) :=
+  roundtrip_canon c hs L hC hA root props hfind m
+    (fun e _ => sortedAlong_of_deep e.1 m hsort hdeep) hok
 
 /-- encoding alone (first half of the statement) -/
 theorem C01_encode_succeeds_partial (c : Cfg) (hs : c.env.flat = true) (L : OracleLaws c.O)
@@ -160,6 +201,57 @@ theorem C01_any_j5_partial (c : Cfg) (hmode : c.protoToAny = false) (props : Lis
   obtain ⟨tlit, nlit, vlit, henc⟩ := enc_any_j5 c.env c.O f tn [] tv.render .none "" (.msg []) hj hu
   exact ⟨tlit, nlit, vlit, henc,
     dec_any_j5 c hmode props p st tn tlit nlit vlit tv hf hp hs hgb hc hd⟩
+
+/-- **`google.protobuf.Any` with `WithProtoToAny` (one property, both directions, `_partial`)**:
+for a codec built `WithProtoToAny` over a flat environment that has no j5 `Any` field (`hj`; protobuf
+`Any` fields are allowed), at a position not yet nested 100 `Any` values deep (`hdepth`, the
+decoder's `maxAnyDepth`): a protobuf `Any` whose type URL is `type.googleapis.com/<name>` for a
+name the resolver knows and whose content is a non-empty representable message `fs` of the
+resolved root
+* is written as `{"!type": <name>, "value": data}`, `data` being the codec's own encoding of `fs`;
+* and — **explicit depth hypothesis** `hD`: the content is nested at most 1664 messages deep, so
+  that its encoding stays within the 10000 levels of `encoding/json` which `popValueAsBytes`
+  (`Decode(&raw)`) runs into (tree-depth bound `C01_encoder_tree_depth`: the encoder's tree is
+  nested at most as deep as the fuel when no `j5_json` is involved) — the decoder reading that
+  value into a protobuf `Any` property (any proto path, any decoder state in which the property is
+  still unset) stores `Any{type_url, content = fs}` again: the inner document is decoded with
+  `anyDepth + 1` back to exactly `fs` (the round trip of the inner message, `RTP` at the deeper
+  configuration).
+The wire bytes of the content are represented in the model by what they unmarshal to (`ik / iroot /
+inner`; trusted base: "proto.Marshal / Unmarshal for the bytes inside Any values"), so
+`unmarshal (marshal m) = m` is part of the modelling assumption, not a hypothesis here.
+
+Not yet part of `C01_roundtrip_partial` (whole messages with protobuf `Any` properties): that needs
+the induction `RTP` itself quantified over `Cfg.anyDepth` (this theorem uses the finished induction
+at `anyDepth + 1`, which the induction cannot do for itself) with `depth + anyDepth ≤ 100` carried
+through it. -/
+theorem C01_any_pb_partial (c : Cfg) (hs : c.env.flat = true) (L : OracleLaws c.O)
+    (hC : c.env.noAny = true ∨ ChunkLaws c.O)
+    (hmode : c.protoToAny = true) (hj : c.env.noJ5Any = true) (hdepth : c.anyDepth < maxAnyDepth)
+    (props : List PropDef) (p : PropDef) (st : PS) (tn val : Bytes) (iroot : String) (fs : Fields)
+    (hf : p.field = .any true) (hp : p.path ≠ []) (hseen : p.jsonName ∉ st.seen)
+    (hgb : groupBusy props p st.m = false) (hu : isValidUtf8 tn = true)
+    (hres : c.env.resolve tn = some iroot) (hne : fs ≠ [])
+    (hok : valOk c.env c.O (.object iroot) (.msg fs) = true ∨
+      valOk c.env c.O (.oneof iroot) (.msg fs) = true)
+    (hD : 6 * (depthFields fs + 1) + 10 ≤ 10000) :
+    ∃ t, encValue c.env c.O (6 * (depthFields fs + 1) + 9 + 2) (.any true)
+          (.anyPb (anyPrefix ++ tn) val .inn iroot (.msg fs)) = .ok t ∧
+      Wire.anyTypeName (.anyPb (anyPrefix ++ tn) val .inn iroot (.msg fs)) = some tn ∧
+      decProp c props p t st =
+        .ok { m := updPath props p (some (.anyPb (anyPrefixB ++ tn) [] .inn iroot (.msg fs))) st.m,
+              seen := p.jsonName :: st.seen } := by
+  obtain ⟨t, he, hd⟩ := any_pb_roundtrip' c hs L hC hmode hj hdepth props p st tn val iroot fs hf hp
+    hseen hgb hu hres hne hok hD
+  refine ⟨t, he, ?_, hd⟩
+  simp only [Wire.anyTypeName]
+  exact congrArg some (trimPrefix_append _ tn)
+
+/-- the tree-depth bound used for `popValueAsBytes`: for a value that holds no `j5_json`, the tree
+the encoder builds with fuel `f` is nested at most `f` deep -/
+theorem C01_encoder_tree_depth (env : Env) (O : Oracle) (f : Nat) (root : String) (v : PVal)
+    (t : PTree) (hn : v.noJ5 = true) (h : encRoot env O f root v = .ok t) : t.depth ≤ f :=
+  (TD_all env O f).root root v t hn h
 
 /-! ## Non-vacuity -/
 
@@ -272,7 +364,7 @@ example : ChunkLaws anyOracle := by
 /-- the real oracles (the driver's: `chunk` is never set) satisfy `ChunkLaws` trivially -/
 example : ChunkLaws toyOracle := chunkLaws_default _ rfl
 example : (({ env := sampleAnyEnv, O := anyOracle } : Cfg).protoToAny = false ∨
-    sampleAnyEnv.noAny = true) := Or.inl rfl
+    sampleAnyEnv.noJ5Any = true) := Or.inl rfl
 
 /-- **the codec's own output is a recognisable chunk**: for a representable message of a flat
 environment the bytes `Codec.ProtoToJSON` returns are the rendering of an encoder tree — exactly
@@ -297,6 +389,47 @@ theorem C01_own_output_is_chunk (c : Cfg) (hs : c.env.flat = true) (L : OracleLa
     (.msg m) bs hg hbs
   have henc := encodeTree_enc' c.env c.O (floatTextOk_of_laws c.O L) root (.msg m) t hg ht
   exact ⟨bs, t, hbs, henc, hb.symm, enc_complete t henc⟩
+
+/-! ### empty flattened sub-messages -/
+
+/-- the properties of `t.M` -/
+def sampleProps : List PropDef :=
+  match sampleEnv.find "t.M" with
+  | some (.object ps) => ps
+  | _ => []
+
+/-- a message with an empty flattened sub-message (field 40) and one that is empty two levels down
+(`40.3`): not representable itself, its canonical form drops them -/
+def emptyFlatMsg : Fields := [(1, .str (ascii "x")), (40, .msg [(3, .msg [])])]
+
+example : sampleEnv.find "t.M" = some (.object sampleProps) := by decide
+example : valOk sampleEnv toyOracle (.object "t.M") (.msg emptyFlatMsg) = false := by decide
+example : canonFlat sampleEnv sampleProps emptyFlatMsg = [(1, .str (ascii "x"))] := by rfl
+example : asorted emptyFlatMsg = true ∧ sortedDeepF emptyFlatMsg = true := by decide
+example : valOk sampleEnv toyOracle (.object "t.M")
+    (.msg (canonFlat sampleEnv sampleProps emptyFlatMsg)) = true := by decide
+/-- a flattened sub-message that holds a leaf is kept -/
+example : canonFlat sampleEnv sampleProps
+    [(40, .msg [(1, .str (ascii "deep")), (3, .msg [])])] = [(40, .msg [(1, .str (ascii "deep"))])] := by
+  rfl
+
+/-! ### protobuf `Any` -/
+
+/-- an environment with a protobuf `Any` property and a resolver entry for the inner type -/
+def samplePbEnv : Env :=
+  { defs := [
+      ("t.I", .object [{ jsonName := ascii "id", path := [1], pres := .imp, field := .scalar .string }]),
+      ("t.P", .object [{ jsonName := ascii "any", path := [2], pres := .msg, field := .any true }])],
+    res := [(ascii "t.v1.I", "t.I")] }
+
+example : samplePbEnv.flat = true ∧ samplePbEnv.noJ5Any = true ∧ samplePbEnv.noAny = false := by decide
+example : samplePbEnv.resolve (ascii "t.v1.I") = some "t.I" := by decide
+example : valOk samplePbEnv toyOracle (.object "t.I") (.msg [(1, .str (ascii "x"))]) = true := by decide
+example : (({ env := samplePbEnv, O := toyOracle, protoToAny := true } : Cfg).anyDepth < maxAnyDepth) := by
+  decide
+example : 6 * (depthFields [(1, PVal.str (ascii "x"))] + 1) + 10 ≤ 10000 := by decide
+example : groupBusy [] { jsonName := ascii "any", path := [2], pres := .msg, field := .any true } [] = false ∧
+    isValidUtf8 (ascii "t.v1.I") = true := by decide
 
 /-- the oracle laws are satisfiable -/
 example : OracleLaws toyOracle := toyOracle_laws
